@@ -2,7 +2,7 @@
    Only statements closed by [exact]; proofs live in Proofs/Constraint*.v, the evaluator as coded
    in Model/Constraint.v, the set-theoretic reading in Spec/SetTheory.v. *)
 From PV Require Import Model.Constraint Spec.SetTheory
-  Proofs.ConstraintInd Proofs.ConstraintDenote Proofs.ConstraintSubtype.
+  Proofs.ConstraintInd Proofs.ConstraintDenote Proofs.ConstraintSubtype Proofs.ConstraintInitializer.
 Local Open Scope Z_scope.
 
 (* A well-formed constraint expression of any depth, applied to a value it is applicable to,
@@ -178,3 +178,29 @@ Theorem C14_range_on_tuple_refuted :
   ceval (CRange 0 10) None (VS (SOid [1%N; 3%N])) = Crash TypeError.
 Proof. exact range_on_tuple_crashes. Qed.
 Print Assumptions C14_range_on_tuple_refuted.
+
+(* no bypass through a value object used as initializer: whatever type produced the payload, the
+   receiving type's constructor checks it, so the result lies in the receiving type's denotation *)
+Theorem C14_initializer_object_checked : forall S T v x,
+  construct S v = Ok x -> checked_by T (op_clone T x) /\ checked_by T (construct T x).
+Proof. exact initializer_object_checked. Qed.
+Print Assumptions C14_initializer_object_checked.
+
+Theorem C14_initializer_object_in_denotation : forall S T v x y,
+  construct S v = Ok x -> op_clone T x = Ok y ->
+  wf (sp_constr (st_spec T)) = true -> typed (sp_constr (st_spec T)) None (VS y) = true ->
+  admits T (VS y).
+Proof. exact initializer_object_in_denotation. Qed.
+Print Assumptions C14_initializer_object_in_denotation.
+
+(* why a shortcut "skip the check when isSuperTypeOf holds" would be a bypass: isSuperTypeOf is not
+   inclusion of value sets *)
+Theorem C14_is_super_is_not_inclusion :
+  (exists P Q v,
+     spec_is_super (st_spec P) (st_spec Q) = true
+     /\ construct Q v = Ok v /\ construct P v = Err EConstraint)
+  /\ (exists P Q v,
+        spec_is_super (st_spec P) (st_spec Q) = true /\ spec_is_super (st_spec Q) (st_spec P) = true
+        /\ construct Q v = Ok v /\ construct P v = Err EConstraint).
+Proof. exact is_super_is_not_inclusion. Qed.
+Print Assumptions C14_is_super_is_not_inclusion.
